@@ -1335,13 +1335,23 @@ var vtACSNames = map[byte]rune{
 // maps.  This is only done if the terminal lacks support for Unicode; we
 // always prefer to emit Unicode glyphs when we are able.
 func (t *tScreen) buildAcsMap() {
+	// The strings of this map are written as cell content, not through
+	// TPuts, so padding in smacs/rmacs ("$<2>" on a vt220) has to be removed
+	// here or it would be printed.  TPuts of an empty Terminfo removes
+	// exactly what TPuts removes on output, and (no PadChar) never sleeps.
+	strip := func(s string) string {
+		var b strings.Builder
+		(&terminfo.Terminfo{}).TPuts(&b, s)
+		return b.String()
+	}
+	enter, exit := strip(t.ti.EnterAcs), strip(t.ti.ExitAcs)
 	acsstr := t.ti.AltChars
 	t.acs = make(map[rune]string)
 	for len(acsstr) >= 2 {
 		srcv := acsstr[0]
 		dstv := acsstr[1:2]
 		if r, ok := vtACSNames[srcv]; ok {
-			t.acs[r] = t.ti.EnterAcs + dstv + t.ti.ExitAcs
+			t.acs[r] = enter + dstv + exit
 		}
 		acsstr = acsstr[2:]
 	}
